@@ -335,3 +335,17 @@ func init() {
 	intrinsics["(*regexp.Regexp).MatchString"] = match
 	intrinsics["(*regexp.Regexp).Match"] = match
 }
+
+// sync.Pool: Get builds a new object with New (pooling is an optimisation), Put drops it
+func init() {
+	intrinsics["(*sync.Pool).Get"] = func(in *Interp, fr *frame, fn *ssa.Function, a []Value) Value {
+		p := a[0].(*Value)
+		st := (*p).(Struct)
+		newFn := st[len(st)-1]
+		if isNilFunc(newFn) {
+			return Iface{}
+		}
+		return in.call(fr, 0, newFn, nil)
+	}
+	intrinsics["(*sync.Pool).Put"] = func(in *Interp, fr *frame, fn *ssa.Function, a []Value) Value { return nil }
+}
